@@ -13,6 +13,7 @@
           last token "T<max>/<cur>/<size>:<entries>"
      connv / connx              same + " x=ok" (the harness cross-checks with nghttp2)
      resp <srvtag> <item>...    h2_send_headers() of one connection's responses (see h_hpack.c)
+     req <maxfield> <item>...   h2_recv_headers() over one connection's HEADERS sequences (see h_hpack.c)
      enc <max> <cur> <block>... reference encoder (tool use): block = fields joined by ",",
          field = name:value:mode:idx:huffN:huffV:resize+resize..   -> one hex block per token
 -/
@@ -137,6 +138,43 @@ def respRun (srv : Bool) : List String → List String → String
     if o.endsWith "goaway" || o == "bad-op" then " ".intercalate (acc.reverse ++ [o])
     else respRun srv rest (o :: acc)
 
+def outcomeStr : Outcome → String
+  | .new id => "new:" ++ toString id
+  | .trailers id => "trl:" ++ toString id
+  | .discarded id (some c) => "disc:" ++ toString id ++ ":" ++ toString c
+  | .discarded id none => "disc:" ++ toString id ++ ":-"
+  | .deferred => "defer"
+  | .nothing => "none"
+
+def reqFinish (c : GConn) (acc : List String) : String :=
+  " ".intercalate (acc.reverse ++ [tableStr c.dec, "cid=" ++ toString c.cid,
+    "nd=" ++ toString c.ndisc, "nr=" ++ toString c.nrefused])
+
+def reqRun (cap : Nat) : GConn → List String → List String → String
+  | c, [], acc => reqFinish c acc
+  | c, it :: rest, acc =>
+    let kind := (it.take 1).toString
+    if kind == "A" then reqRun cap { c with acked := true } rest ("a" :: acc)
+    else if kind == "G" then reqRun cap (setGoaway c (-1)) rest ("g" :: acc)
+    else if kind == "X" then
+      match ((it.drop 1).toString).toNat? with
+      | some id => reqRun cap { c with streams := c.streams.filter (·.id != id) } rest ("x" :: acc)
+      | none => "bad-op"
+    else if kind == "H" || kind == "h" then
+      match ((it.drop 1).toString).splitOn "/" with
+      | [id, es, _pad, dep, frags, keep] =>
+        match id.toNat?, (frags.splitOn "+").mapM ofHex with
+        | some id, some fs =>
+          let g0 := c.goaway
+          let (c', o) := recvHeaders cap c id (es != "0") (if dep == "-" then none else dep.toNat?)
+            fs.flatten (keep != "0")
+          let tok := outcomeStr o
+          if c'.goaway > 0 then reqFinish c' ((tok ++ "!" ++ toString c'.goaway) :: acc)
+          else reqRun cap c' rest ((if c'.goaway < 0 ∧ g0 = 0 then tok ++ "~" else tok) :: acc)
+        | _, _ => "bad-op"
+      | _ => "bad-op"
+    else "bad-op"
+
 def hpackLine : List String → String
   | ["int", p, h] => hpHex h fun b =>
     match p.toNat? with
@@ -183,6 +221,7 @@ def hpackLine : List String → String
        | .ok s => if s = b then "1" else "0"
        | .error _ => "0")
   | "resp" :: srv :: items => respRun (srv == "1") items []
+  | "req" :: _maxfield :: items => reqRun 65535 {} items []
   | "enc" :: mx :: cur :: blocks =>
     match mx.toNat?, cur.toNat? with
     | some mx, some cur => encRun ⟨mx, cur, []⟩ blocks []
